@@ -58,6 +58,13 @@ CHECKS = {
              "dotted path, deprecated import key, unconfigured). The call log of the instrumented functions must equal, as a multiset, the non-null occurrences of the "
              "scalar in the response (parse) and in the caller's arguments (serialize); attributes must be parse(raw) of their own token and wire values serialize(value).",
         note=GEN_NOTE, design="4/C07"),
+    "C08": dict(
+        category="exploration",
+        technique="runtime monitoring: isinstance/validate checks on objects returned by the real client at spread sites listed by an independent document walker; import outcome under permuted/split definition orders; __bases__ inspection for @mixin",
+        text="For fragment-heavy seeded inputs an independent walker lists every direct spread of an inline-free fragment on its own type; objects returned at those "
+             "positions must be instances of fragments.<Fragment>, which must validate the same sub-payload and exist whatever else uses the fragment; 3-6 permutations "
+             "and file splits of the definitions must all generate and import; every @mixin class must be a base of exactly the classes generated for its node.",
+        note=GEN_NOTE, design="4/C08"),
     "C10": dict(
         category="exploration",
         technique="runtime monitoring: differential observation of real generator subprocesses under varied PYTHONHASHSEED, file creation orders/mtimes and pre-existing target; sha256 comparison of every produced file",
